@@ -201,12 +201,14 @@ func ScaleTwistExtrude3D(sdf SDF2, height, twist float64, scale v2.Vec) SDF3 {
 	s.extrude = ScaleTwistExtrude(height, twist, scale)
 	// work out the bounding box
 	bb := sdf.BoundingBox()
-	bb = bb.Extend(Box2{bb.Min.Mul(scale), bb.Max.Mul(scale)})
 	// the twisted shape stays within the circle through the farthest box vertex
 	l := 0.0
 	for _, v := range bb.Vertices() {
 		l = math.Max(l, v.Length())
 	}
+	// the scale is applied after the twist: a vertex that has been rotated towards
+	// the other axis is stretched by that axis' factor
+	l *= math.Max(1, math.Max(scale.X, scale.Y))
 	s.bb = Box3{v3.Vec{-l, -l, -s.height}, v3.Vec{l, l, s.height}}
 	return &s
 }
